@@ -100,7 +100,7 @@ pub const SYMBOLS: &[&str] = &["A", "B$", "SCORE", "TOTAL", "FORK", "X1", "FNA",
 
 pub const NUMERALS: &[&str] = &["1", ".5", "007", "1.", "12.5", "0", "100"];
 
-pub const STRINGS: &[&str] = &["\"s p\"", "\"é\"", "\"\"", "\"IF x THEN\"", "\"a:b,c\""];
+pub const STRINGS: &[&str] = &["\"s p\"", "\"é\"", "\"\"", "\"IF x THEN\"", "\"a:b,c\"", "\"score\"", "\"total\"", "\"x1\"", "\"Fna\"", "\"note$\""];
 
 /// A DATA statement as pieces: keyword, then items with plain separators.
 /// `items`: (text, quoted?)
@@ -138,7 +138,8 @@ pub fn atoms(with_hostile: bool) -> Vec<Vec<Piece>> {
     for n in ["1", ".5", "007", "1."] {
         a.push(vec![plain(n)]);
     }
-    for s in ["\"s p\"", "\"é\"", "\"\""] {
+    // `"total"` / `"a"`: literals that equal an identifier of the alphabet except for letter case
+    for s in ["\"s p\"", "\"é\"", "\"\"", "\"total\"", "\"a\""] {
         a.push(vec![literal(s)]);
     }
     a.push(vec![plain(" ")]);
